@@ -235,6 +235,9 @@ func deserialize(h, serialized []byte, state nodeState) (node, error) {
 		if err != nil {
 			return nil, errors.New("fail to parse header of node")
 		}
+		if len(keyheader) == 0 {
+			return nil, errors.New("empty key header of node")
+		}
 		if (keyheader[0] & 0x20) == 0 {
 			// extension
 			return newExtension(h, serialized, blist, state)
